@@ -22,6 +22,7 @@ import (
 	"path/filepath"
 	"regexp"
 	"runtime"
+	"runtime/pprof"
 	"sort"
 	"strconv"
 	"strings"
@@ -160,6 +161,7 @@ func main() {
 	noReplay := fs.Bool("noreplay", false, "skip native replay/validation")
 	solverKind := fs.String("solver", "z3", "z3|z3-new|cvc5")
 	evOut := fs.String("evidence", "", "evidence path (default <verif>/evidence/<id>.json)")
+	cpuprof := fs.String("cpuprofile", "", "write a CPU profile")
 	fs.Parse(os.Args[2:])
 	if *id == "" {
 		fmt.Fprintln(os.Stderr, "missing -id")
@@ -171,6 +173,14 @@ func main() {
 	seed := 0
 	if s := os.Getenv("VERIF_SEED"); s != "" {
 		seed, _ = strconv.Atoi(s)
+	}
+	if *cpuprof != "" {
+		f, _ := os.Create(*cpuprof)
+		pprof.StartCPUProfile(f)
+		code := run(*id, *tier, *repo, *verif, *only, *workers, *trace, *noReplay, *solverKind, *evOut, seed)
+		pprof.StopCPUProfile()
+		f.Close()
+		os.Exit(code)
 	}
 	os.Exit(run(*id, *tier, *repo, *verif, *only, *workers, *trace, *noReplay, *solverKind, *evOut, seed))
 }
@@ -197,6 +207,7 @@ type harnessReport struct {
 	WallS        float64             `json:"wall_s"`
 	Asserts      int64               `json:"assertions_checked"`
 	Proved       int64               `json:"assertions_unsat"`
+	DomainDecided int64              `json:"branches_decided_by_byte_domains"`
 	Reach        map[string]bool     `json:"reach_witnesses"`
 	Inconclusive map[string]int      `json:"inconclusive,omitempty"`
 	Violations   int                 `json:"violations"`
@@ -357,11 +368,11 @@ func run(id, tier, repo, verif, only string, workers int, trace, noReplay bool, 
 	var bounds, notes []string
 	qTimeout := 10000
 	maxSteps := int64(5_000_000)
-	maxPaths := int64(200_000)
+	maxPaths := int64(2_000_000)
 	budget := 8 * time.Minute
 	if tier == "thorough" {
 		qTimeout = 60000
-		maxPaths = 5_000_000
+		maxPaths = 50_000_000
 		maxSteps = 20_000_000
 		budget = 45 * time.Minute
 	}
@@ -391,7 +402,14 @@ func run(id, tier, repo, verif, only string, workers int, trace, noReplay bool, 
 		sums := map[string]bool{}
 		for _, s := range h.sums {
 			if _, ok := byName[s]; !ok {
-				return fail("summarize target %q not found", s)
+				var near []string
+				for k := range byName {
+					if strings.HasPrefix(k, pkg.Pkg.Path()+".") {
+						near = append(near, k)
+					}
+				}
+				sort.Strings(near)
+				return fail("summarize target %q not found; package has %v", s, near)
 			}
 			sums[s] = true
 		}
@@ -412,7 +430,7 @@ func run(id, tier, repo, verif, only string, workers int, trace, noReplay bool, 
 			rep := harnessReport{
 				Name: fnName, File: filepath.Base(h.path), Paths: res.Paths, States: res.States, Steps: res.Steps, Forks: res.Forks,
 				Queries: map[string]int{"sat": res.Queries.Sat, "unsat": res.Queries.Unsat, "unknown": res.Queries.Unknown, "error": res.Queries.Errors},
-				SolverS: res.Queries.Time.Seconds(), WallS: res.Wall.Seconds(), Asserts: res.Asserts, Proved: res.AssertsProved,
+				SolverS: res.Queries.Time.Seconds(), WallS: res.Wall.Seconds(), Asserts: res.Asserts, Proved: res.AssertsProved, DomainDecided: res.DomainDecided,
 				Reach: res.Reached, Inconclusive: res.Inconclusive, Violations: len(res.Violations), Summaries: res.Summarized,
 				Bounds: res.Bounds, Samples: res.Samples,
 			}
@@ -443,9 +461,9 @@ func run(id, tier, repo, verif, only string, workers int, trace, noReplay bool, 
 			if len(res.Reached) == 0 && res.Paths["completed"] == 0 && len(res.Violations) == 0 && len(res.KnownHits) == 0 {
 				inconclusive = append(inconclusive, fmt.Sprintf("%s: vacuous: no path completed", fnName))
 			}
-			fmt.Fprintf(os.Stderr, "%s: paths=%v states=%d queries(sat=%d unsat=%d unk=%d err=%d) solver=%.1fs wall=%.1fs viol=%d known=%v incon=%d\n",
+			fmt.Fprintf(os.Stderr, "%s: paths=%v states=%d queries(sat=%d unsat=%d unk=%d err=%d) solver=%.1fs wall=%.1fs viol=%d known=%v incon=%d domain=%d\n",
 				fnName, res.Paths, res.States, res.Queries.Sat, res.Queries.Unsat, res.Queries.Unknown, res.Queries.Errors,
-				res.Queries.Time.Seconds(), res.Wall.Seconds(), len(res.Violations), rep.Known, len(res.Inconclusive))
+				res.Queries.Time.Seconds(), res.Wall.Seconds(), len(res.Violations), rep.Known, len(res.Inconclusive), res.DomainDecided)
 			for i := range res.Violations {
 				v := &res.Violations[i]
 				runs = append(runs, &replayRun{Harness: fnName, Inputs: v.Inputs, purpose: "violation", viol: v, dir: h.dir})
